@@ -12,6 +12,15 @@ TRUST = ('Trusted base: rustc nightly THIR/MIR for this source (same cfgs as the
          'the evidence file.')
 
 CHECKS = {
+    'C20': {
+        'technique': 'return-value case analysis of MainConfig::new (Ok leaves entail the validation facts), assignment-order check for CLI overrides, census of derive-expanded validator calls, struct-literal/static provenance for Argon2 hash/verify agreement, configuration-field reader census, TLS accept-path delegation in the TLS build configurations',
+        'level': ('Decides that a configuration reaches run_server only through MainConfig::new, whose Ok value implies validate() Ok, '
+                  'nickname lengths and the certificate/key pair check, with all CLI overrides applied before validation; that the '
+                  'generated validators cover name/password/user/operator/channel fields; that hashing and verification share instance, '
+                  'salt and parameters; that each CLI option overrides its own field; that each documented setting is read by the code '
+                  'implementing it; and (TLS builds) that TLS only changes the transport.'),
+        'note': TRUST + ' Cryptographic exactness and plain-vs-TLS transcript equality are not decided; serde deserialisation is trusted.',
+    },
     'C18': {
         'technique': 'lock-region analysis over lexical guard live ranges: effect census under write guards, transitive acquires() summary for re-entrancy, query-event/guard matching for check-then-act, await census under guards; type-level compile-fail witness (E0596) with a compiling twin in the thorough tier',
         'level': ('Decides the lock discipline that makes each handler one atomic step: state reachable only through the RwLock, '
@@ -172,8 +181,5 @@ CHECKS = {
 
 NOT_APPLICABLE = {
 }
-for _p in ['C01', 'C02', 'C03', 'C04', 'C05', 'C06', 'C08', 'C09', 'C10', 'C11', 'C12', 'C13', 'C14', 'C15', 'C16',
-           'C17', 'C18', 'C19', 'C20']:
-    if _p not in CHECKS:
-        NOT_APPLICABLE[_p] = ('not claimed in this revision: the static rules for this property (DESIGN.md section 5) '
-                              'are not implemented yet; no other technique is substituted')
+# every property is claimed at clause level; the clauses this technique family cannot decide are listed per check
+# in level_note and in each evidence file (coverage.explanation), and in DESIGN.md section 5.
